@@ -1,7 +1,7 @@
 (* C08 — when the copying form is refused by add_child's uniqueness check.
    [sib_dup g]: the forest g has two siblings with one data_id.  The copying
    form raises UniqueConstraintError iff the tree it would build has such a
-   pair; by the main theorem that tree is dbl v (F v f) up to node identity.
+   pair; by the main theorem that tree is dbl v mk (F v f) up to node identity.
    Without the D24 leaves this never happens on a legal tree (sub-forests of
    a legal tree are legal); with them it happens exactly when an accepted,
    visited node keeps a child that carries the node's own data_id. *)
@@ -118,21 +118,23 @@ Qed.
 
 Section P.
 Variable v : nat -> verdict.
+Variable mk : info -> info.
+Hypothesis mk_did : forall i, i_did (mk i) = i_did i.   (* re-creating a node never changes its data_id *)
 
-Lemma rdid_dbl t : rdid (dbl_t v t) = rdid t.
-Proof. destruct t as [id i ch]. cbn [dbl_t]. destruct (v id); reflexivity. Qed.
+Lemma rdid_dbl t : rdid (dbl_t v mk t) = rdid t.
+Proof. destruct t as [id i ch]. cbn [dbl_t]. destruct (v id); unfold rdid; cbn [rinfo]; apply mk_did. Qed.
 
-Lemma map_rdid_dbl l : map rdid (map (dbl_t v) l) = map rdid l.
+Lemma map_rdid_dbl l : map rdid (map (dbl_t v mk) l) = map rdid l.
 Proof. rewrite map_map. apply map_ext. intros t. apply rdid_dbl. Qed.
 
 Lemma existsb_did_map i l : existsb (fun c => did_eqb (i_did i) (rdid c)) l = existsb (did_eqb (i_did i)) (map rdid l).
 Proof. induction l as [|y l IHl]; [reflexivity|]. cbn [existsb map]. rewrite IHl. reflexivity. Qed.
 
 (* the D24 leaves make a sibling pair exactly where a doubled node has a child with its own data_id *)
-Definition dbl_safe (t : rt) : Prop := sib_dup_t t = false -> pc_dup_t t = false -> sib_dup_t (dbl_t v t) = false.
+Definition dbl_safe (t : rt) : Prop := sib_dup_t t = false -> pc_dup_t t = false -> sib_dup_t (dbl_t v mk t) = false.
 
 Lemma dbl_safe_f l : Forall dbl_safe l -> existsb sib_dup_t l = false -> existsb pc_dup_t l = false ->
-  existsb sib_dup_t (map (dbl_t v) l) = false.
+  existsb sib_dup_t (map (dbl_t v mk) l) = false.
 Proof.
   induction 1 as [|x l Hx _ IH]; intros H1 H2; [reflexivity|]. cbn [existsb map] in *.
   apply orb_false_iff in H1. apply orb_false_iff in H2. destruct H1 as [A1 B1], H2 as [A2 B2].
@@ -144,21 +146,21 @@ Proof.
   induction t as [id i ch IH] using rt_ind'. intros H1 H2. rewrite sib_dup_t_unfold in H1.
   cbn [pc_dup_t] in H2. apply orb_false_iff in H1. apply orb_false_iff in H2. destruct H1 as [A1 B1], H2 as [A2 B2].
   pose proof (dbl_safe_f ch IH B1 B2) as Hk.
-  assert (Hd : did_dup (map (dbl_t v) ch) = false) by (rewrite did_dup_ddup, map_rdid_dbl, <- did_dup_ddup; exact A1).
+  assert (Hd : did_dup (map (dbl_t v mk) ch) = false) by (rewrite did_dup_ddup, map_rdid_dbl, <- did_dup_ddup; exact A1).
   cbn [dbl_t]. destruct (v id); rewrite sib_dup_t_unfold.
   - rewrite did_dup_cons. cbn [existsb]. rewrite sib_dup_t_unfold. cbn [did_dup existsb orb].
-    change (rdid (T id i [])) with (i_did i).
+    change (rdid (T id (mk i) [])) with (i_did (mk i)). rewrite mk_did.
     rewrite existsb_did_map, map_rdid_dbl, <- existsb_did_map, A2, Hd, Hk. reflexivity.
   - rewrite Hd, Hk. reflexivity.
   - rewrite Hd, Hk. reflexivity.
   - rewrite did_dup_cons. cbn [existsb]. rewrite sib_dup_t_unfold. cbn [did_dup existsb orb].
-    change (rdid (T id i [])) with (i_did i).
+    change (rdid (T id (mk i) [])) with (i_did (mk i)). rewrite mk_did.
     rewrite existsb_did_map, map_rdid_dbl, <- existsb_did_map, A2, Hd, Hk. reflexivity.
   - rewrite A1, B1. reflexivity.
   - rewrite Hd, Hk. reflexivity.
 Qed.
 
-Lemma dbl_sib_dup g : sib_dup g = false -> pc_dup g = false -> sib_dup (dbl v g) = false.
+Lemma dbl_sib_dup g : sib_dup g = false -> pc_dup g = false -> sib_dup (dbl v mk g) = false.
 Proof.
   unfold sib_dup, pc_dup, dbl. intros H1 H2. apply orb_false_iff in H1. destruct H1 as [A1 B1].
   rewrite did_dup_ddup, map_rdid_dbl, <- did_dup_ddup, A1. cbn [orb].
@@ -167,16 +169,16 @@ Qed.
 
 (* the copying form is refused iff the doubled result has a sibling pair with one data_id *)
 Theorem copy_refused_iff f nx :
-  api_filtered (Some v) f nx = (if sib_dup (dbl v (F v f)) then EUnique else Ok (fst (add_filtered v f nx))) /\
-  api_copy (Some v) f nx = api_filtered (Some v) f nx.
+  api_filtered mk (Some v) f nx = (if sib_dup (dbl v mk (F v f)) then EUnique else Ok (fst (add_filtered v mk f nx))) /\
+  api_copy mk (Some v) f nx = api_filtered mk (Some v) f nx.
 Proof.
   unfold api_filtered, api_copy, copy_result.
-  rewrite (sib_dup_modulo_ids _ _ (add_filtered_is_dbl_F v f nx)). split; reflexivity.
+  rewrite (sib_dup_modulo_ids _ _ (add_filtered_is_dbl_F v mk f nx)). split; reflexivity.
 Qed.
 
 (* never on a tree without a child carrying its parent's data_id ... *)
 Theorem copy_not_refused f nx : sib_dup f = false -> pc_dup f = false ->
-  api_filtered (Some v) f nx = Ok (fst (add_filtered v f nx)).
+  api_filtered mk (Some v) f nx = Ok (fst (add_filtered v mk f nx)).
 Proof.
   intros H1 H2. rewrite (proj1 (copy_refused_iff f nx)).
   rewrite (dbl_sib_dup (F v f)); [reflexivity| |].
@@ -189,7 +191,7 @@ Theorem F_legal f : sib_dup f = false -> sib_dup (F v f) = false.
 Proof. exact (emb_sib_dup _ _ (F_emb v f)). Qed.
 
 (* the plain copy of a legal tree is never refused *)
-Theorem plain_copy_not_refused f nx : sib_dup f = false -> api_copy None f nx = Ok (fst (copy_f f nx)).
+Theorem plain_copy_not_refused f nx : sib_dup f = false -> api_copy mk None f nx = Ok (fst (copy_f f nx)).
 Proof.
   intros H. unfold api_copy, copy_result.
   rewrite (sib_dup_modulo_ids (fst (copy_f f nx)) f (copy_f_erase f nx)), H. reflexivity.
